@@ -133,7 +133,22 @@ def generate(family, rng, tier):
             for s in sigs:
                 s["io"] = rng.random() < 0.3
                 s["sync"] = rng.random() < 0.4
-            designs.append({"signals": sigs, "duid_offset": 0})
+            mems = []
+            if rng.random() < 0.5:
+                # memories with synchronous read ports: their port registers are named <memory>_adr<n> / <memory>_dat<n> by the
+                # backend and must not collide with signals that happen to carry exactly those names
+                for mi in range(rng.randint(1, 2)):
+                    nm = rng.choice(["data", "x", "q", "mem"])
+                    mems.append({"name": nm, "mode": rng.choice(["wf", "rf"]), "width": rng.choice([4, 8])})
+                    for suffix in ("_adr0", "_dat0", "_adr1", "_dat1", ""):
+                        if rng.random() < 0.4 and sigs:
+                            t = rng.choice(sigs)
+                            if rng.random() < 0.5:
+                                t["override"] = nm + suffix
+                            else:
+                                t["bt"] = [[nm + suffix, 0]]
+                                t["override"] = None
+            designs.append({"signals": sigs, "duid_offset": 0, "mems": mems})
             if not any(s["io"] for s in sigs):
                 sigs[0]["io"] = True
         # the same program in every interpreter (same DUIDs): only the interpreter's hash seed differs
@@ -238,6 +253,16 @@ for d in batch["designs"]:
             if s["io"]:
                 ios.add(sig)
         prev = sig
+    for mi, ms in enumerate(d.get("mems", [])):
+        from migen import Memory
+        from migen.fhdl.specials import WRITE_FIRST, READ_FIRST
+        mem = Memory(ms["width"], 4, name=ms["name"])
+        port = mem.get_port(write_capable=True, mode=WRITE_FIRST if ms["mode"] == "wf" else READ_FIRST)
+        m.specials += mem, port
+        o = Signal(ms["width"])
+        o.backtrace = [("mo%%d" %% mi, 0)]
+        m.comb += [port.adr.eq(objs[0][:2]), port.dat_w.eq(objs[0]), port.we.eq(objs[0][0]), o.eq(port.dat_r)]
+        ios.add(o)
     for k in range(d.get("slices", 0)):
         a, b = objs[k %% len(objs)], objs[(k + 1) %% len(objs)]
         o = Signal(2)
